@@ -83,10 +83,12 @@ def model_verdicts(lines):
 def explain_schedule(header, lines, max_inserts=8):
     """
     The background flusher polls in real time; the trace only says where the harness SLEPT
-    (`tick N`: at least N polls).  A poll may also fall between two calls.  When model and
-    implementation disagree in a history with asynchronous writes, look for extra polls
-    (`tick k` between two calls of the trace) under which the model reproduces the WHOLE observed
-    history; any such schedule is one the property quantifies over, so the history is accepted.
+    (`tick N`: at least N polls).  A poll may also fall between two calls, and a flush may execute
+    some calls after the poll that decided it.  When model and implementation disagree in a history
+    with asynchronous writes, look for extra flusher events (`tick k` / `fflush` between two calls
+    of the trace) under which the model reproduces the WHOLE observed history; any such schedule is
+    one the property quantifies over, so the history is accepted.  (An early flush is always within
+    the property; the explicit `tick N` of the trace still demands the flushes that are due.)
     Returns the list of inserted (position, k) or None when no schedule explains the trace.
     """
     import re
@@ -112,13 +114,18 @@ def explain_schedule(header, lines, max_inserts=8):
         lo = max(0, i - 60)
         best = None
         for j in range(i, lo, -1):
-            for k in ([1] + ([timeout_ticks] if timeout_ticks and timeout_ticks > 1 else [])):
-                cand = cur[:j] + [f"tick {k} => ok"] + cur[j:]
+            # a poll, the polls of a whole timeout, or a flush decided earlier (the flusher reads the
+            # pending count under the read lock and gets the write lock only later: `fflush`)
+            for ev in (["tick 1"] + ([f"tick {timeout_ticks}"] if timeout_ticks and timeout_ticks > 1 else []) + ["fflush"]):
+                cand = cur[:j] + [f"{ev} => ok"] + cur[j:]
                 i2 = first_bad(cand)
-                if i2 is None or i2 > i + 1:
-                    best = (cand, j, k, i2)
+                if i2 is None:
+                    best = (cand, j, ev, None)
                     break
-            if best:
+                # keep the position after which the model follows the observation longest
+                if i2 > i + 1 and (best is None or i2 > best[3]):
+                    best = (cand, j, ev, i2)
+            if best and best[3] is None:
                 break
         if not best:
             return None
@@ -143,7 +150,7 @@ def crash_points(run):
     if not h:
         return
     quick = run.tier == "quick"
-    nhist = 24 if quick else 160
+    nhist = 24 if quick else 480
     base = os.path.join(run.scratch, "crash")
     r = sh([h, "-profile", "crash", "-seed", str(run.seed), "-n", str(nhist), "-out", base, "-root", base + ".db"])
     if r.returncode != 0:
@@ -540,7 +547,7 @@ def conc_linearizable(run):
     h = race_harness(run)
     if not h:
         return
-    n = 60 if run.tier == "quick" else 800
+    n = 60 if run.tier == "quick" else 2000
     out = os.path.join(run.scratch, "lin.json")
     r = sh([h, "-conc", "lin", "-seed", str(run.seed), "-n", str(n), "-root", os.path.join(run.scratch, "lin-db"), "-out", out],
            env=dict(os.environ, GORACE="halt_on_error=0 exitcode=66"), timeout=1800)
@@ -668,7 +675,7 @@ def _norm_result(call, res):
 
 def config_pairs(run):
     h = run.harness
-    n = 60 if run.tier == "quick" else 800
+    n = 60 if run.tier == "quick" else 2400
     base = os.path.join(run.scratch, "pairs")
     r = sh([h, "-profile", "pairs", "-seed", str(run.seed), "-n", str(n), "-out", base, "-root", base + ".db"])
     ops = [json.loads(l) for l in open(base + ".ops")]
@@ -735,7 +742,7 @@ def config_pairs(run):
 
 def alias_check(run):
     """C14: isolation of stored values from caller memory, on random deep object shapes"""
-    n = 80 if run.tier == "quick" else 1500
+    n = 80 if run.tier == "quick" else 2500
     try:
         r = subprocess.run([run.harness, "-alias", "-n", str(n), "-seed", str(run.seed), "-root", os.path.join(run.scratch, "alias"), "-out", "x"],
                            stdout=subprocess.PIPE, stderr=subprocess.PIPE, text=True, timeout=1200)
@@ -832,7 +839,7 @@ def storage_faults(run):
     if not h:
         return
     quick = run.tier == "quick"
-    nhist = 16 if quick else 120
+    nhist = 16 if quick else 360
     base = os.path.join(run.scratch, "iofault")
     r = sh([h, "-profile", "iofault", "-seed", str(run.seed), "-n", str(nhist), "-out", base, "-root", base + ".db"])
     trace = open(base + ".trace").read().splitlines()
